@@ -6,7 +6,7 @@
    output = L [A class_rank; receive result or A (-1) when the protocol refuses the serializer for that path;
                chunks produced for the probe or A (-1)] *)
 From Coq Require Import ZArith List Bool.
-From EN Require Import Lib.Bytes Lib.Sx Frame.Serialize Frame.Stapled Frame.Base64 Gen.ParamsC01.
+From EN Require Import Lib.Bytes Lib.Sx Frame.Serialize Frame.Stapled Frame.Base64 Frame.NtStruct Gen.ParamsC01.
 From EN Require Run.Stream Run.C06.
 Import ListNotations.
 
@@ -49,8 +49,26 @@ Definition run_b64 (url ck : Z) (data : bytes) (table tokens : list sx) : sx :=
   | _, _ => bad_input
   end.
 
+(* kind 32: NamedTupleStructSerializer(Point, {"name": "<n>s", "x": "B"}).
+   input = L [A 32; A n; A strip; A ascii; B name; A x; L [B frame ...]]
+   output = L [B serialize(Point(name, x)); deserialize(that); L [deserialize(frame) ...]],
+   a deserialize result = L [A 0; B name; A x] | L [A 1] (DeserializeError) *)
+Definition ntres (r : option (bytes * N)) : sx :=
+  match r with Some (v, x) => L [A 0; B v; A (Z.of_N x)] | None => L [A 1] end%Z.
+
+Definition run_nt (n strip ascii : Z) (name : bytes) (x : Z) (frames : list sx) : sx :=
+  match map_opt (fun r => match r with B t => Some t | _ => None end) frames with
+  | Some fs =>
+      let k := Z.to_nat n in
+      let de := nt_deserialize k (negb (Z.eqb strip 0)) (negb (Z.eqb ascii 0)) in
+      let tok := nt_serialize k name (Z.to_N x) in
+      L [B tok; ntres (de tok); L (map (fun f => ntres (de f)) fs)]
+  | None => bad_input
+  end.
+
 Definition run (i : sx) : sx :=
   match i with
+  | L [A 32%Z; A n; A strip; A ascii; B name; A x; L frames] => run_nt n strip ascii name x frames
   | L [A 31%Z; A url; A ck; B data; L table; L tokens] => run_b64 url ck data table tokens
   | L [A 30%Z; A cls; A s; A r; inner; B probe] => run_stapled cls s r inner probe
   | L (A k :: _) =>
